@@ -153,7 +153,8 @@ func logFromAbstractBases(r *rand.Rand, cfg WireCfg, gp GenParams, units []inter
 		tables = append(tables, genTable(r, uint64(100+i), gp))
 	}
 	ts := uint32(1600000000)
-	f := &LogFile{Name: "mysql-bin.000001"}
+	scheme := r.Intn(4)
+	f := &LogFile{Name: logFileName(scheme, 0)}
 	if len(bases) > 0 {
 		f.Base = bases[0]
 	}
@@ -163,7 +164,7 @@ func logFromAbstractBases(r *rand.Rand, cfg WireCfg, gp GenParams, units []inter
 		switch k {
 		case "rotate":
 			f.Units = append(f.Units, genUnit(r, k, tables, gp, &ts, cfg.Gtid))
-			f = &LogFile{Name: "mysql-bin." + pad6(len(l.Files)+1)}
+			f = &LogFile{Name: logFileName(scheme, len(l.Files))}
 			if len(bases) > len(l.Files) {
 				f.Base = bases[len(l.Files)]
 			}
@@ -598,6 +599,13 @@ func modeC17Stream(e *Env) {
 			var raws [][]byte
 			if i <= 2 {
 				raws = invalidPacketKinds(e.R)
+				if i == 2 && li == 0 {
+					// a packet of every length below a full header (what an error path may still want to read from it)
+					xid := mkEvent(1600000000, tXid, 1, 500, 0, le64(99), false)
+					for n := 0; n <= 18; n++ {
+						raws = append(raws, append([]byte(nil), xid[:n]...))
+					}
+				}
 			} else {
 				for rep := 0; rep < e.N(2, 6); rep++ {
 					raws = append(raws, invalidPacket(e.R))
